@@ -382,7 +382,8 @@ class SiteTracer(Tracer):
                     if "init" in s:
                         v = self.eval(s["init"], env)
                         if "els" in s:
-                            self.guards.append((app("matches", v, "else-branch"), False))
+                            from .tables import pat_key as _pk
+                            self.guards.append((app("matches", v, repr(_pk(s["pat"]))), False))
                             try:
                                 self.eval(s["els"], dict(env))
                             finally:
